@@ -23,6 +23,10 @@ def run(ctx):
                        "output after 6+66*count bytes (what the contracts hash) equals the signing body and hashes to the signed digest, payload lengths 0.."
                        "65537, 0..255 signatures; conc: digests / encodings computed by 6+1 goroutines (plus 2 verifiers) in barrier-released rounds in a "
                        "child process vs the sequentially computed ones; panic, hang (15 s watchdog, fires only on a stuck call) and process crash are verdicts")
+    ctx.cov["rule"] += (" | evm (run last): the real EVM watcher against the fake node on same-height reorg histories - re-observation of one "
+                        "transaction in (N, h1, t1), then re-mined in (N, h2, t2), another transaction of that block, flip back, one block higher, "
+                        "failing block-time lookup, the change inside one request; log delivery in (M, hA, tA) then (M, hB, tB) - clause "
+                        "forwarded-timestamp-not-block-time / forwarded-altered (owned by C10)")
     ctx.cov["trusted_base"] += ["checks/c04gen.py: regex extraction of parseVM (Messages.sol) and parseAndVerifyVAA (governance.ral) offsets; contracts never executed",
                                 "Keccak-256 is an oracle: theorems stop at pre-image (signing body) level"]
     ctx.assumptions += ["timestamps outside [0, 2^32) seconds alias modulo 2^32 in Go and both contracts alike (the wire format's representable range)"]
@@ -31,6 +35,11 @@ def run(ctx):
     # part `c04`, C04 owns only the ...-forwarded-altered clauses (checks/alphwatchcommon.py)
     from checks import alphwatchcommon
     alphwatchcommon.run_paths_for_c04(ctx)
+    # EVM part (same sentence): the EVM watcher's re-observation and log paths across a reorg that keeps the height - the message handed
+    # to the processor must carry the time of the block its receipt points to at that moment (family evm's harness part `c04`; C04
+    # owns only c10.C04_CLAUSES, the clauses themselves are C10's)
+    from checks import c10
+    c10.run_reobs_for_c04(ctx)
     # if a Gen-based theorem broke, name the deviating offsets as the failing input
     if facts is not None and any(b[0] == "proof" for b in ctx.broken):
         want = [("timestamp", 0, 4), ("nonce", 4, 4), ("emitterChainId", 8, 2), ("targetChainId", 10, 2),
